@@ -26,7 +26,11 @@ CRedef == IF Done /\ Redef
                 given |-> <<>>, toks |-> <<>>, execs |-> 0, detail |-> ""]
           ELSE [ev |-> "none", ok |-> FALSE, inputs |-> <<>>, given |-> <<>>, toks |-> <<>>, execs |-> 0, detail |-> ""]
 
-CI == INSTANCE Contract WITH scn <- scn, gens <- <<>>, log <- log, rets <- CRets, redef <- CRedef, kinds <- {}
+\* the scenario as the harness reports it: supplied value j carries token j, one use = phase 1
+ScnC == [f \in DOMAIN scn \cup {"itoks", "phase0", "carry", "twinOf"} |->
+           IF f = "itoks" THEN [j \in DOMAIN scn.inputs |-> j]
+           ELSE IF f = "phase0" THEN 1 ELSE IF f = "carry" THEN FALSE ELSE IF f = "twinOf" THEN 0 ELSE scn[f]]
+CI == INSTANCE Contract WITH scn <- ScnC, gens <- <<>>, log <- log, rets <- CRets, redef <- CRedef, kinds <- {}
 
 M_C01 == CI!C01
 M_C02 == CI!C02
